@@ -2,6 +2,42 @@
 
 package main
 
+import (
+	"bufio"
+	"encoding/json"
+	"os"
+	"strconv"
+	"sync"
+
+	"github.com/nspcc-dev/neofs-node/pkg/local_object_storage/shard"
+	oid "github.com/nspcc-dev/neofs-sdk-go/object/id"
+)
+
+func runAll09(hs []history, enc *json.Encoder) {
+	var (
+		wg  sync.WaitGroup
+		sem = make(chan struct{}, workers())
+		res = make([]case09T, len(hs))
+	)
+	for i := range hs {
+		wg.Add(1)
+		sem <- struct{}{}
+		go func(i int) {
+			defer wg.Done()
+			defer func() { <-sem }()
+			cs, err := runC09(i, hs[i])
+			if err != nil {
+				fatal("history %d: %v", i, err)
+			}
+			res[i] = cs
+		}(i)
+	}
+	wg.Wait()
+	for i := range res {
+		_ = enc.Encode(res[i])
+	}
+}
+
 // genUniverse: 4 regular objects, then tombstones and locks aimed at them, with
 // small expiration epochs so that expiry, locks and tombstones collide.
 func genUniverse(r *rng) []objT {
@@ -69,6 +105,189 @@ func genC15(r *rng, i int) history {
 	return h
 }
 
-func (e *env) doOpExtra(i int, op opT, res *int) bool { return false }
+func (e *env) doOpExtra(i int, op opT, res *int) bool {
+	switch op.Op {
+	case "restart":
+		if err := e.restart(true); err != nil {
+			fatal("restart: %v", err)
+		}
+	case "resync":
+		mb := shard.VerifCrashMetabase(e.sh)
+		ord := make([]oid.Address, len(op.Ord))
+		for j, a := range op.Ord {
+			ord[j] = addrOf(a)
+		}
+		e.blob.ord = ord
+		saved := e.ep.v.Load()
+		if op.E0 {
+			e.ep.v.Store(0)
+		}
+		err := mb.ResyncFromBlobstor(e.blob, nil)
+		e.ep.v.Store(saved)
+		e.blob.ord = nil
+		if err != nil {
+			*res = 1
+		}
+	default:
+		return false
+	}
+	return true
+}
 
-func extraCommand(self string, seed uint64, args []string) bool { return false }
+// restart closes the shard (clean restart) or abandons the operation in flight
+// (process death emulated by a panic out of the wrapped component call: nothing
+// after that call has run) and opens a fresh shard on the same directories.
+func (e *env) restart(clean bool) error {
+	epoch := e.ep.v.Load()
+	_ = e.sh.Close()
+	n, err := openShard(e.dir, e.h, e.c)
+	if err != nil {
+		return err
+	}
+	*e = *n
+	e.ep.v.Store(epoch)
+	return nil
+}
+
+// doOpCut runs one operation of a C09 history; returns false if it was cut.
+func (e *env) doOpCut(i int, op opT) (completed bool) {
+	e.c.mu.Lock()
+	e.c.opn, e.c.cut, e.c.cutAfter = 0, op.Cut, op.CutAfter
+	e.c.mu.Unlock()
+	defer func() {
+		if r := recover(); r != nil {
+			if _, ok := r.(cutSentinel); !ok {
+				panic(r)
+			}
+			completed = false
+			if err := e.restart(false); err != nil {
+				fatal("restart after cut: %v", err)
+			}
+		}
+		e.c.mu.Lock()
+		e.c.cut = 0
+		e.c.mu.Unlock()
+	}()
+	e.doOp(i, op)
+	return true
+}
+
+type hopObsT struct {
+	Cut bool    `json:"cut"` // the operation was really cut (it had that many component calls)
+	Obs [][]int `json:"obs"` // per address: exists, get, blob has, write-cache has
+}
+
+type case09T struct {
+	ID   int       `json:"id"`
+	H    history   `json:"h"`
+	Hops []hopObsT `json:"hops"`
+}
+
+// runC09 runs the history on one shard (restarted where the history says so) and
+// observes every address after every operation.
+func runC09(id int, h history) (case09T, error) {
+	cs := case09T{ID: id, H: h}
+	dir, err := os.MkdirTemp("", "verif-crash-")
+	if err != nil {
+		return cs, err
+	}
+	defer os.RemoveAll(dir)
+	e, err := openShard(dir, h, &ctl{})
+	if err != nil {
+		return cs, err
+	}
+	if err := e.prepare(); err != nil {
+		return cs, err
+	}
+	for i, op := range h.Ops {
+		done := e.doOpCut(i, op)
+		cs.Hops = append(cs.Hops, hopObsT{Cut: !done, Obs: e.observe()})
+	}
+	_ = e.sh.Close()
+	return cs, nil
+}
+
+func genC09(r *rng, i int) history {
+	h := history{WC: i%2 == 0, Objs: genUniverse(r)}
+	n := 10 + r.intn(6)
+	var epoch uint64
+	nobj := len(h.Objs)
+	perm := func() []int {
+		p := make([]int, nobj)
+		for j := range p {
+			p[j] = j
+		}
+		for j := nobj - 1; j > 0; j-- {
+			k := r.intn(j + 1)
+			p[j], p[k] = p[k], p[j]
+		}
+		return p
+	}
+	cut := func(o opT) opT {
+		if r.intn(5) == 0 {
+			o.Cut = 1 + r.intn(3)
+			o.CutAfter = r.intn(2) == 0
+		}
+		return o
+	}
+	for len(h.Ops) < n {
+		x := r.intn(100)
+		switch {
+		case x < 30:
+			a := r.intn(nobj)
+			if len(h.Ops) < 4 || r.intn(3) == 0 {
+				a = r.intn(4)
+			}
+			h.Ops = append(h.Ops, cut(opT{Op: "put", A: a, Fail: r.intn(12) == 0}))
+		case x < 35:
+			h.Ops = append(h.Ops, cut(opT{Op: "del", As: []int{r.intn(nobj)}}))
+		case x < 43:
+			h.Ops = append(h.Ops, cut(opT{Op: "mark", A: r.intn(4), Mk: r.intn(2)}))
+		case x < 60:
+			h.Ops = append(h.Ops, cut(opT{Op: "gc"}))
+		case x < 74:
+			epoch += uint64(1 + r.intn(2))
+			h.Ops = append(h.Ops, opT{Op: "epoch", E: epoch})
+		case x < 82:
+			if h.WC {
+				h.Ops = append(h.Ops, cut(opT{Op: "flush", A: r.intn(nobj)}))
+			}
+		case x < 88:
+			h.Ops = append(h.Ops, opT{Op: "restart"})
+		default:
+			h.Ops = append(h.Ops, opT{Op: "resync", Ord: perm(), E0: r.intn(3) == 0})
+		}
+	}
+	return h
+}
+
+func extraCommand(self string, seed uint64, args []string) bool {
+	enc := json.NewEncoder(os.Stdout)
+	switch args[0] {
+	case "race":
+		runRaces(enc)
+		return true
+	case "c09":
+		n, _ := strconv.Atoi(args[1])
+		r := &rng{s: seed*0x9e3779b97f4a7c15 + 9}
+		hs := make([]history, n)
+		for i := range hs {
+			hs[i] = genC09(r, i)
+		}
+		runAll09(hs, enc)
+		return true
+	case "run09":
+		sc := bufio.NewScanner(os.Stdin)
+		sc.Buffer(make([]byte, 1<<20), 1<<26)
+		var hs []history
+		for sc.Scan() {
+			var h history
+			if err := json.Unmarshal(sc.Bytes(), &h); err == nil {
+				hs = append(hs, h)
+			}
+		}
+		runAll09(hs, enc)
+		return true
+	}
+	return false
+}
